@@ -1,7 +1,11 @@
 (** * NotationProofs: C17 theorems about move notation.
-    - [uci_roundtrip], [uci_unknown_none]           (GetMoveFromUci over [Rules.legal])
-    - [san_roundtrip], [san_ambiguous_none], [san_no_match_none]   (GetMoveFromSan)
-    - refuted literal readings (findings) and non-vacuity examples.
+    - [uci_roundtrip], [uci_unknown_none], [uci_strict_none]      (GetMoveFromUci over [Rules.legal])
+    - [san_roundtrip], [san_ambiguous_none], [san_no_match_none], [from_san_sound],
+      [san_strict_none], [from_san_exact]                          (GetMoveFromSan)
+    - non-vacuity examples.
+    The parsers are the REPAIRED ones (anchored regexes; castling never falls through into
+    the normal-move test and is accepted as O-O / O-O-O plus decorations only; a promotion
+    suffix only fits promotion moves).
     Facts about the rules specification that are needed ([pseudo_class], [pseudo_NoDup],
     [pseudo_key_inj]) are proved here from [Rules.pseudo]. *)
 From Coq Require Import NArith ZArith List Bool Lia ZifyN ZifyBool.
@@ -620,31 +624,30 @@ Definition uci_suffix_ok (m : mv) (suffix : option N) : Prop :=
   | Some e => mtype m = 1 /\ is_uciprom_ch e = true /\ to_upper e = pt_char (mprom m)
   end.
 
-Lemma uci_at_wf a b c d (suffix : option N) (rest : str) :
+Definition o2l (o : option N) : str := match o with Some c => [c] | None => [] end.
+
+Lemma uci_at_wf a b c d (suffix : option N) :
   is_file_ch a = true -> is_rank_ch b = true -> is_file_ch c = true -> is_rank_ch d = true ->
-  match suffix with Some e => is_uciprom_ch e = true | None => match rest with [] => True | e :: _ => is_uciprom_ch e = false end end ->
-  uci_find ([a; b; c; d] ++ match suffix with Some e => e :: rest | None => rest end)
-  = Some ([a; b; c; d], suffix).
+  match suffix with Some e => is_uciprom_ch e = true | None => True end ->
+  uci_find ([a; b; c; d] ++ o2l suffix) = Some ([a; b; c; d], suffix).
 Proof.
-  intros Ha Hb Hc Hd Hs. cbn [app uci_find]. unfold uci_at. rewrite Ha, Hb, Hc, Hd. cbn [andb].
-  destruct suffix as [e|]; [rewrite Hs; reflexivity|]. destruct rest as [|e r]; [reflexivity|rewrite Hs; reflexivity].
+  intros Ha Hb Hc Hd Hs. unfold uci_find, uci_at.
+  destruct suffix as [e|]; cbn [o2l app]; rewrite Ha, Hb, Hc, Hd; cbn [andb]; [rewrite Hs|]; reflexivity.
 Qed.
 
-(* core: a string consisting of the two squares of a legal move and a fitting promotion
-   letter (any case) - possibly followed by junk that is not a promotion letter - parses to
-   exactly that move *)
-Lemma from_uci_core p m (suffix : option N) (rest : str) :
+(* core: the string consisting of the two squares of a legal move and a fitting promotion
+   letter (any case) - and nothing else - parses to exactly that move *)
+Lemma from_uci_core p m (suffix : option N) :
   In m (legal p) -> uci_suffix_ok m suffix ->
-  match suffix with Some _ => True | None => match rest with [] => True | e :: _ => is_uciprom_ch e = false end end ->
-  from_uci p (sq_name (mfrom m) ++ sq_name (mto m) ++ match suffix with Some e => e :: rest | None => rest end) = Some m.
+  from_uci p (sq_name (mfrom m) ++ sq_name (mto m) ++ o2l suffix) = Some m.
 Proof.
-  intros Hm Hsuf Hrest. pose proof (legal_in_pseudo p m Hm) as Hps.
+  intros Hm Hsuf. pose proof (legal_in_pseudo p m Hm) as Hps.
   pose proof (pseudo_class p m Hps) as (Hf & Ht & _).
   unfold from_uci.
-  change (sq_name (mfrom m) ++ sq_name (mto m) ++ match suffix with Some e => e :: rest | None => rest end)
-    with ([file_ch (mfrom m); rank_ch (mfrom m); file_ch (mto m); rank_ch (mto m)] ++ match suffix with Some e => e :: rest | None => rest end).
+  change (sq_name (mfrom m) ++ sq_name (mto m) ++ o2l suffix)
+    with ([file_ch (mfrom m); rank_ch (mfrom m); file_ch (mto m); rank_ch (mto m)] ++ o2l suffix).
   rewrite uci_at_wf; try apply file_ch_class; try (apply rank_ch_class; assumption).
-  2:{ destruct suffix as [e|]; [destruct Hsuf as (_ & H & _); exact H|exact Hrest]. }
+  2:{ destruct suffix as [e|]; [destruct Hsuf as (_ & H & _); exact H|exact I]. }
   set (want := [file_ch (mfrom m); rank_ch (mfrom m); file_ch (mto m); rank_ch (mto m)] ++ match suffix with Some e => [to_upper e] | None => [] end).
   assert (Hwant : string_uci m = want).
   { unfold string_uci, want. rewrite !square_string_valid by assumption. cbn [sq_name app]. unfold PROMOTION.
@@ -663,10 +666,10 @@ Proof.
   intros p m _ Hm. exists m. split; [|reflexivity].
   pose proof (pseudo_prom_range p m (legal_in_pseudo p m Hm)) as Hpr.
   unfold uci_str, PROMOTION. destruct (N.eqb_spec (mtype m) 1) as [Hy|Hy].
-  - apply (from_uci_core p m (Some (pt_letter (mprom m) + 32)) [] Hm); [|exact I].
+  - apply (from_uci_core p m (Some (pt_letter (mprom m) + 32)) Hm).
     cbn. split; [exact Hy|]. specialize (Hpr Hy). apply range36 in Hpr.
     destruct Hpr as [-> | [-> | [-> | ->]]]; split; reflexivity.
-  - apply (from_uci_core p m None [] Hm); [exact Hy|exact I].
+  - apply (from_uci_core p m None Hm). exact Hy.
 Qed.
 (* the strong form, and the same for the engine's own printer (upper-case letter) *)
 Theorem uci_roundtrip_eq : forall p m, In m (legal p) -> from_uci p (uci_str m) = Some m.
@@ -674,10 +677,10 @@ Proof.
   intros p m Hm.
   pose proof (pseudo_prom_range p m (legal_in_pseudo p m Hm)) as Hpr.
   unfold uci_str, PROMOTION. destruct (N.eqb_spec (mtype m) 1) as [Hy|Hy].
-  - apply (from_uci_core p m (Some (pt_letter (mprom m) + 32)) [] Hm); [|exact I].
+  - apply (from_uci_core p m (Some (pt_letter (mprom m) + 32)) Hm).
     cbn. split; [exact Hy|]. specialize (Hpr Hy). apply range36 in Hpr.
     destruct Hpr as [-> | [-> | [-> | ->]]]; split; reflexivity.
-  - apply (from_uci_core p m None [] Hm); [exact Hy|exact I].
+  - apply (from_uci_core p m None Hm). exact Hy.
 Qed.
 Theorem uci_roundtrip_engine_printer : forall p m, In m (legal p) -> from_uci p (string_uci m) = Some m.
 Proof.
@@ -686,10 +689,10 @@ Proof.
   pose proof (pseudo_prom_range p m Hps) as Hpr.
   unfold string_uci, PROMOTION. rewrite !square_string_valid by assumption.
   destruct (N.eqb_spec (mtype m) 1) as [Hy|Hy].
-  - apply (from_uci_core p m (Some (pt_char (mprom m))) [] Hm); [|exact I].
+  - apply (from_uci_core p m (Some (pt_char (mprom m))) Hm).
     cbn. split; [exact Hy|]. specialize (Hpr Hy). apply range36 in Hpr.
     destruct Hpr as [-> | [-> | [-> | ->]]]; split; reflexivity.
-  - apply (from_uci_core p m None [] Hm); [exact Hy|exact I].
+  - apply (from_uci_core p m None Hm). exact Hy.
 Qed.
 
 (* anything the parser returns is a legal move whose printed form is the matched text *)
@@ -723,10 +726,10 @@ Proof.
   destruct (Hno m Hm) as (Hn1 & Hn2).
   destruct s as [|a [|b [|c [|d [|e [|x r]]]]]]; try discriminate Hwf.
   - (* four characters *)
-    cbn [uci_wellformed] in Hwf. cbn [uci_find] in Hfind. unfold uci_at in Hfind. rewrite Hwf in Hfind.
+    cbn [uci_wellformed] in Hwf. cbv beta iota delta [uci_find uci_at] in Hfind. rewrite Hwf in Hfind.
     injection Hfind as <- <-. rewrite app_nil_r in Hstr. congruence.
   - cbn [uci_wellformed] in Hwf. apply andb_prop in Hwf. destruct Hwf as (Hwf & He).
-    cbn [uci_find] in Hfind. unfold uci_at in Hfind. rewrite Hwf, He in Hfind.
+    cbv beta iota delta [uci_find uci_at] in Hfind. rewrite Hwf, He in Hfind.
     injection Hfind as <- <-. cbn [app] in Hstr.
     (* m is a promotion, its piece letter is the upper case of e *)
     unfold string_uci, PROMOTION in Hstr. rewrite !square_string_valid in Hstr by assumption.
@@ -742,10 +745,47 @@ Proof.
       cbn [sq_name app]. rewrite pt_letter_char36 by exact Hpr. congruence.
 Qed.
 
-(** ** E. The SAN matcher on strings of the SAN shape *)
-Definition o2l (o : option N) : str := match o with Some c => [c] | None => [] end.
+(* the anchored regex accepts well-formed strings only *)
+Lemma uci_find_wf s r : uci_find s = Some r -> uci_wellformed s = true.
+Proof.
+  unfold uci_find, uci_at, uci_wellformed.
+  destruct s as [|a [|b [|c [|d [|e [|x t]]]]]]; try (intros H; discriminate H);
+    destruct (is_file_ch a && is_rank_ch b && is_file_ch c && is_rank_ch d); try (intros H; discriminate H); cbn [andb].
+  - reflexivity.
+  - destruct (is_uciprom_ch e); [reflexivity|intros H; discriminate H].
+Qed.
 
-(* character classes as complete tables of the five tests the prefix matcher performs *)
+(** uci_strict_none: EVERY string (no well-formedness guard: junk before or after a move,
+    wrong length, wrong characters, trailing newline ...) that is the UCI string of no legal
+    move - in either letter case of the promotion piece - yields no move. *)
+Theorem uci_strict_none : forall p s,
+  (forall m, In m (legal p) -> s <> uci_str m /\ s <> string_uci m) -> from_uci p s = None.
+Proof.
+  intros p s Hno. destruct (uci_find s) as [r|] eqn:E.
+  - apply uci_unknown_none; [eapply uci_find_wf; exact E|exact Hno].
+  - unfold from_uci. rewrite E. reflexivity.
+Qed.
+(* and conversely: exactly the two spellings of each legal move are accepted *)
+Theorem from_uci_exact : forall p s m,
+  from_uci p s = Some m <-> In m (legal p) /\ (s = uci_str m \/ s = string_uci m).
+Proof.
+  intros p s m. split.
+  - intros H. destruct (from_uci_sound p s m H) as (Hm & _). split; [exact Hm|].
+    destruct (str_eqb s (uci_str m)) eqn:E1; [left; apply str_eqb_eq; exact E1|].
+    destruct (str_eqb s (string_uci m)) eqn:E2; [right; apply str_eqb_eq; exact E2|]. exfalso.
+    (* s is the string of no OTHER legal move either: the parser would have returned that one *)
+    assert (Hother : forall m', In m' (legal p) -> s = uci_str m' \/ s = string_uci m' -> m' = m).
+    { intros m' Hm' [-> | ->]; [rewrite uci_roundtrip_eq in H by exact Hm'|rewrite uci_roundtrip_engine_printer in H by exact Hm']; congruence. }
+    assert (Hnone : from_uci p s = None).
+    { apply uci_strict_none. intros m' Hm'. split; intros Hs.
+      - assert (m' = m) by (apply Hother; auto). subst m'. subst s. rewrite str_eqb_refl in E1. discriminate E1.
+      - assert (m' = m) by (apply Hother; auto). subst m'. subst s. rewrite str_eqb_refl in E2. discriminate E2. }
+    congruence.
+  - intros (Hm & [-> | ->]); [apply uci_roundtrip_eq|apply uci_roundtrip_engine_printer]; exact Hm.
+Qed.
+
+(** ** E. The SAN matcher on strings of the SAN shape *)
+(* character classes as complete tables of the tests the matcher performs *)
 Definition c_piece (c : N) : Prop := is_piece_ch c = true.
 Definition c_file (c : N) : Prop :=
   is_piece_ch c = false /\ is_file_ch c = true /\ is_rank_ch c = false /\ is_x_ch c = false /\ (c =? 79) = false.
@@ -754,8 +794,11 @@ Definition c_rank (c : N) : Prop :=
 Definition c_x (c : N) : Prop :=
   is_piece_ch c = false /\ is_file_ch c = false /\ is_rank_ch c = false /\ is_x_ch c = true /\ (c =? 79) = false.
 Definition tail_ok (T : str) : Prop :=
-  match T with [] => True | c :: _ => is_file_ch c = false /\ is_x_ch c = false /\ (c =? 79) = false end.
+  match T with [] => True | c :: _ => is_file_ch c = false /\ is_x_ch c = false /\ (c =? 79) = false /\ (c =? 45) = false end.
 Definition opt_ok (cls : N -> Prop) (o : option N) : Prop := match o with Some c => cls c | None => True end.
+(* group 4 as text *)
+Notation tstr := target_str (only parsing).
+Definition tg_ok (tg : san_target) : Prop := match tg with TSq F R => c_file F /\ c_rank R | _ => True end.
 
 Lemma file_is_c_file c : is_file_ch c = true -> c_file c.
 Proof. unfold c_file, is_piece_ch, is_prom_ch, is_file_ch, is_rank_ch, is_x_ch. lia. Qed.
@@ -763,6 +806,8 @@ Lemma rank_is_c_rank c : is_rank_ch c = true -> c_rank c.
 Proof. unfold c_rank, is_piece_ch, is_prom_ch, is_file_ch, is_rank_ch, is_x_ch. lia. Qed.
 Lemma x_is_c_x : c_x 120.
 Proof. unfold c_x. repeat split; reflexivity. Qed.
+Lemma x_is_c_x' c : is_x_ch c = true -> c_x c.
+Proof. unfold c_x, is_piece_ch, is_prom_ch, is_file_ch, is_rank_ch, is_x_ch. lia. Qed.
 
 Ltac san_facts :=
   repeat match goal with
@@ -770,78 +815,263 @@ Ltac san_facts :=
          | H : c_file _ |- _ => destruct H as (? & ? & ? & ? & ?)
          | H : c_rank _ |- _ => destruct H as (? & ? & ? & ? & ?)
          | H : c_x _ |- _ => destruct H as (? & ? & ? & ? & ?)
-         | H : tail_ok (_ :: _) |- _ => destruct H as (? & ? & ?)
+         | H : tail_ok (_ :: _) |- _ => destruct H as (? & ? & ? & ?)
+         | H : tg_ok (TSq _ _) |- _ => destruct H as (? & ?)
          end.
-Ltac san_rw :=
-  repeat match goal with
-         | H : ?t = true |- context [?t] => rewrite H
-         | H : ?t = false |- context [?t] => rewrite H
-         end.
-Ltac san_eval :=
-  unfold san_at, opt_eat, san_g4, san_sq_alt;
-  repeat (cbv beta iota fix delta [strip_prefix app andb orb o2l]; san_rw);
-  try reflexivity.
 
-(* the general shape lemma: whatever optional parts are present, a string
-   [piece][file][rank][x] square tail   is matched at position 0 with exactly these groups *)
-Lemma san_at_shape (g1 g2 g3 : option N) (X : option N) (F R : N) (T : str) :
-  opt_ok c_piece g1 -> opt_ok c_file g2 -> opt_ok c_rank g3 -> opt_ok c_x X ->
-  c_file F -> c_rank R -> tail_ok T ->
-  san_at (o2l g1 ++ o2l g2 ++ o2l g3 ++ o2l X ++ [F; R] ++ T)
-  = Some (mk_sf g1 g2 g3 (TSq F R) (san_g6 T)).
+(* the stages of [san_at] as named continuations *)
+Definition K4 (g1 g2 g3 : option N) (s4 : str) : option san_fields :=
+  san_g4 s4 (fun tg s5 => match san_tail s5 with Some g6 => Some (mk_sf g1 g2 g3 tg g6) | None => None end).
+Definition K3 (g1 g2 g3 : option N) (s3 : str) := opt_eat is_x_ch s3 (fun _ s4 => K4 g1 g2 g3 s4).
+Definition K2 (g1 g2 : option N) (s2 : str) := opt_eat is_rank_ch s2 (fun g3 s3 => K3 g1 g2 g3 s3).
+Definition K1 (g1 : option N) (s1 : str) := opt_eat is_file_ch s1 (fun g2 s2 => K2 g1 g2 s2).
+Lemma san_at_K s : san_at s = opt_eat is_piece_ch s K1.
+Proof. reflexivity. Qed.
+
+Definition hd_not (cls : N -> bool) (s : str) : Prop := match s with c :: _ => cls c = false | [] => True end.
+Lemma opt_eat_take {A} cls c r (k : option N -> str -> option A) x :
+  cls c = true -> k (Some c) r = Some x -> opt_eat cls (c :: r) k = Some x.
+Proof. intros Hc Hk. unfold opt_eat. rewrite Hc, Hk. reflexivity. Qed.
+Lemma opt_eat_skip {A} cls s (k : option N -> str -> option A) : hd_not cls s -> opt_eat cls s k = k None s.
+Proof. destruct s as [|c r]; [reflexivity|]. cbn [hd_not]. intros H. unfold opt_eat. rewrite H. reflexivity. Qed.
+Lemma opt_eat_back {A} cls c r (k : option N -> str -> option A) :
+  k (Some c) r = None -> opt_eat cls (c :: r) k = k None (c :: r).
+Proof. intros Hk. unfold opt_eat. rewrite Hk. destruct (cls c); reflexivity. Qed.
+
+(* the letters of the castling strings belong to no class *)
+Lemma O_facts : is_piece_ch 79 = false /\ is_file_ch 79 = false /\ is_rank_ch 79 = false /\ is_x_ch 79 = false.
+Proof. repeat split; reflexivity. Qed.
+
+(* a rest that cannot start group 4 and is no 'x' *)
+Definition dead (s : str) : Prop :=
+  match s with [] => True | c :: _ => is_file_ch c = false /\ is_x_ch c = false /\ (c =? 79) = false end.
+Lemma K4_dead g1 g2 g3 s : dead s -> K4 g1 g2 g3 s = None.
 Proof.
-  intros H1 H2 H3 HX HF HR HT.
-  destruct g1 as [L|], g2 as [f|], g3 as [r|], X as [x|], T as [|c T']; cbn [opt_ok] in *; san_facts; san_eval.
+  destruct s as [|c r]; [reflexivity|]. intros (Hf & _ & HO). unfold K4, san_g4, san_sq_alt. rewrite Hf.
+  cbn [strip_prefix]. rewrite HO. reflexivity.
+Qed.
+Lemma K3_dead g1 g2 g3 s : dead s -> K3 g1 g2 g3 s = None.
+Proof.
+  intros Hd. unfold K3. rewrite opt_eat_skip; [apply K4_dead; exact Hd|].
+  destruct s as [|c r]; [exact I|]. destruct Hd as (_ & Hx & _). exact Hx.
+Qed.
+Lemma tail_ok_dead T : tail_ok T -> dead T.
+Proof. destruct T as [|c r]; [auto|]. intros (A & B & C & _). repeat split; assumption. Qed.
+
+Lemma K4_shape g1 g2 g3 tg T g6 : tg_ok tg -> tail_ok T -> san_tail T = Some g6 ->
+  K4 g1 g2 g3 (tstr tg ++ T) = Some (mk_sf g1 g2 g3 tg g6).
+Proof.
+  intros Htg HT H6. unfold K4, san_g4. destruct tg as [F R| |]; cbn [target_str app].
+  - destruct Htg as (HF & HR). san_facts. unfold san_sq_alt.
+    repeat match goal with H : ?t = true |- context [?t] => rewrite H end. rewrite H6. reflexivity.
+  - (* O-O : not a square, not O-O-O (the tail does not start with '-') *)
+    cbn. destruct T as [|c T']; [rewrite H6; reflexivity|]. destruct HT as (_ & _ & _ & H45). rewrite H45. rewrite H6. reflexivity.
+  - cbn. rewrite H6. reflexivity.
+Qed.
+Lemma K3_shape g1 g2 g3 X tg T g6 : opt_ok c_x X -> tg_ok tg -> tail_ok T -> san_tail T = Some g6 ->
+  K3 g1 g2 g3 (o2l X ++ tstr tg ++ T) = Some (mk_sf g1 g2 g3 tg g6).
+Proof.
+  intros HX Htg HT H6. unfold K3. destruct X as [x|]; cbn [o2l app opt_ok] in *.
+  - apply opt_eat_take; [destruct HX as (_ & _ & _ & H & _); exact H|apply K4_shape; assumption].
+  - rewrite opt_eat_skip; [apply K4_shape; assumption|].
+    destruct tg as [F R| |]; cbn [target_str app hd_not]; [destruct Htg as ((_ & _ & _ & H & _) & _); exact H|reflexivity|reflexivity].
+Qed.
+Lemma K2_shape g1 g2 g3 X tg T g6 : opt_ok c_rank g3 -> opt_ok c_x X -> tg_ok tg -> tail_ok T -> san_tail T = Some g6 ->
+  K2 g1 g2 (o2l g3 ++ o2l X ++ tstr tg ++ T) = Some (mk_sf g1 g2 g3 tg g6).
+Proof.
+  intros H3 HX Htg HT H6. unfold K2. destruct g3 as [r|]; cbn [o2l app opt_ok] in *.
+  - apply opt_eat_take; [destruct H3 as (_ & _ & H & _); exact H|apply K3_shape; assumption].
+  - rewrite opt_eat_skip; [apply K3_shape; assumption|].
+    destruct X as [x|]; cbn [o2l app hd_not opt_ok] in *; [destruct HX as (_ & _ & H & _); exact H|].
+    destruct tg as [F R| |]; cbn [target_str app hd_not]; [destruct Htg as ((_ & _ & H & _) & _); exact H|reflexivity|reflexivity].
+Qed.
+Lemma K1_shape g1 g2 g3 X tg T g6 : opt_ok c_file g2 -> opt_ok c_rank g3 -> opt_ok c_x X -> tg_ok tg -> tail_ok T -> san_tail T = Some g6 ->
+  K1 g1 (o2l g2 ++ o2l g3 ++ o2l X ++ tstr tg ++ T) = Some (mk_sf g1 g2 g3 tg g6).
+Proof.
+  intros H2 H3 HX Htg HT H6. unfold K1. destruct g2 as [f|]; cbn [o2l app opt_ok] in *.
+  - apply opt_eat_take; [destruct H2 as (_ & H & _); exact H|apply K2_shape; assumption].
+  - destruct g3 as [r|]; cbn [o2l app opt_ok] in *.
+    { rewrite opt_eat_skip; [apply (K2_shape g1 None (Some r)); assumption|]. destruct H3 as (_ & H & _); exact H. }
+    destruct X as [x|]; cbn [o2l app opt_ok] in *.
+    { rewrite opt_eat_skip; [apply (K2_shape g1 None None (Some x)); assumption|]. destruct HX as (_ & H & _); exact H. }
+    destruct tg as [F R| |]; cbn [target_str app].
+    + (* the first character of the target square is tried as the file of origin first: this fails *)
+      destruct Htg as (HF & HR).
+      rewrite opt_eat_back; [apply (K2_shape g1 None None None (TSq F R)); try exact I; try assumption; split; assumption|].
+      unfold K2. rewrite opt_eat_back.
+      * apply K3_dead. cbn [dead]. destruct HR as (_ & A & _ & B & C). repeat split; assumption.
+      * apply K3_dead. apply tail_ok_dead. exact HT.
+    + rewrite opt_eat_skip; [apply (K2_shape g1 None None None TOO); try exact I; assumption|reflexivity].
+    + rewrite opt_eat_skip; [apply (K2_shape g1 None None None TOOO); try exact I; assumption|reflexivity].
 Qed.
 
+(* the general shape lemma: whatever optional parts are present, a string
+   [piece][file][rank][x] target tail   is matched as a whole with exactly these groups *)
+Lemma san_at_shape (g1 g2 g3 : option N) (X : option N) (tg : san_target) (T : str) (g6 : option N) :
+  opt_ok c_piece g1 -> opt_ok c_file g2 -> opt_ok c_rank g3 -> opt_ok c_x X ->
+  tg_ok tg -> tail_ok T -> san_tail T = Some g6 ->
+  san_at (o2l g1 ++ o2l g2 ++ o2l g3 ++ o2l X ++ tstr tg ++ T)
+  = Some (mk_sf g1 g2 g3 tg g6).
+Proof.
+  intros H1 H2 H3 HX Htg HT H6. rewrite san_at_K. destruct g1 as [L|]; cbn [o2l app opt_ok] in *.
+  - apply opt_eat_take; [exact H1|apply K1_shape; assumption].
+  - rewrite opt_eat_skip; [apply K1_shape; assumption|].
+    destruct g2 as [f|]; cbn [o2l app hd_not opt_ok] in *; [destruct H2 as (H & _); exact H|].
+    destruct g3 as [r|]; cbn [o2l app hd_not opt_ok] in *; [destruct H3 as (H & _); exact H|].
+    destruct X as [x|]; cbn [o2l app hd_not opt_ok] in *; [destruct HX as (H & _); exact H|].
+    destruct tg as [F R| |]; cbn [target_str app hd_not]; [destruct Htg as ((H & _) & _); exact H|reflexivity|reflexivity].
+Qed.
+
+(** the tail  (=?([NBRQ]))?([!?+#]* )?$ *)
+Lemma deco_end_str d : deco_end d = deco_str d.
+Proof. reflexivity. Qed.
 Lemma deco_cases c : is_deco_ch c = true -> c = 33 \/ c = 63 \/ c = 43 \/ c = 35.
 Proof. unfold is_deco_ch. lia. Qed.
+Lemma prom_cases c : is_prom_ch c = true -> c = 78 \/ c = 66 \/ c = 82 \/ c = 81.
+Proof. unfold is_prom_ch. lia. Qed.
+Definition c_prom (c : N) : Prop := is_prom_ch c = true.
+Definition prom_str (ue : bool) (g6 : option N) : str :=
+  match g6 with Some e => (if ue then [61] else []) ++ [e] | None => [] end.
+
 Lemma deco_tail_ok d : deco_str d = true -> tail_ok d.
 Proof.
   destruct d as [|c d]; [exact (fun _ => I)|]. cbn [deco_str forallb]. intros H. apply andb_prop in H. destruct H as (H & _).
   apply deco_cases in H. destruct H as [-> | [-> | [-> | ->]]]; repeat split; reflexivity.
 Qed.
-Lemma san_g6_deco d : deco_str d = true -> san_g6 d = None.
-Proof.
-  destruct d as [|c d]; [reflexivity|]. cbn [deco_str forallb]. intros H. apply andb_prop in H. destruct H as (H & _).
-  apply deco_cases in H. destruct H as [-> | [-> | [-> | ->]]]; reflexivity.
-Qed.
-Lemma prom_cases c : is_prom_ch c = true -> c = 78 \/ c = 66 \/ c = 82 \/ c = 81.
-Proof. unfold is_prom_ch. lia. Qed.
-Lemma san_g6_eq P d : is_prom_ch P = true -> san_g6 (61 :: P :: d) = Some P.
-Proof. intros H. unfold san_g6. rewrite H. reflexivity. Qed.
-Lemma san_g6_noeq P d : is_prom_ch P = true -> san_g6 (P :: d) = Some P.
-Proof. intros H. apply prom_cases in H. destruct H as [-> | [-> | [-> | ->]]]; reflexivity. Qed.
 Lemma prom_tail_ok P d : is_prom_ch P = true -> tail_ok (P :: d).
 Proof. intros H. apply prom_cases in H. destruct H as [-> | [-> | [-> | ->]]]; repeat split; reflexivity. Qed.
 Lemma eq_tail_ok d : tail_ok (61 :: d).
 Proof. repeat split; reflexivity. Qed.
 
-Lemma san_at_castle_short d : deco_str d = true ->
-  san_at ([79;45;79] ++ d) = Some (mk_sf None None None TOO None).
+Lemma san_tail_deco d : deco_str d = true -> san_tail d = Some None.
 Proof.
-  destruct d as [|c d]; [intros _; vm_compute; reflexivity|].
-  cbn [deco_str forallb]. intros H. apply andb_prop in H. destruct H as (H & _).
-  apply deco_cases in H. destruct H as [-> | [-> | [-> | ->]]]; vm_compute; reflexivity.
+  intros Hd. unfold san_tail. destruct d as [|c r]; [reflexivity|].
+  pose proof Hd as Hd'. cbn [deco_str forallb] in Hd'. apply andb_prop in Hd'. destruct Hd' as (Hc & _).
+  assert (E1 : (c =? 61) = false) by (apply deco_cases in Hc; destruct Hc as [-> | [-> | [-> | ->]]]; reflexivity).
+  assert (E2 : is_prom_ch c = false) by (apply deco_cases in Hc; destruct Hc as [-> | [-> | [-> | ->]]]; reflexivity).
+  rewrite E1, E2. cbn [andb]. rewrite deco_end_str, Hd. destruct r; reflexivity.
 Qed.
-Lemma san_at_castle_long d : deco_str d = true ->
-  san_at ([79;45;79;45;79] ++ d) = Some (mk_sf None None None TOOO None).
+Lemma san_tail_eq P d : is_prom_ch P = true -> deco_str d = true -> san_tail (61 :: P :: d) = Some (Some P).
+Proof. intros H Hd. unfold san_tail. rewrite H, deco_end_str, Hd. reflexivity. Qed.
+Lemma san_tail_noeq P d : is_prom_ch P = true -> deco_str d = true -> san_tail (P :: d) = Some (Some P).
 Proof.
-  destruct d as [|c d]; [intros _; vm_compute; reflexivity|].
-  cbn [deco_str forallb]. intros H. apply andb_prop in H. destruct H as (H & _).
-  apply deco_cases in H. destruct H as [-> | [-> | [-> | ->]]]; vm_compute; reflexivity.
+  intros H Hd. unfold san_tail. rewrite H, deco_end_str, Hd.
+  assert (E1 : (P =? 61) = false) by (apply prom_cases in H; destruct H as [-> | [-> | [-> | ->]]]; reflexivity).
+  rewrite E1. destruct d; reflexivity.
 Qed.
+Lemma san_tail_print ue g6 d : opt_ok c_prom g6 -> deco_str d = true ->
+  san_tail (prom_str ue g6 ++ d) = Some g6 /\ tail_ok (prom_str ue g6 ++ d).
+Proof.
+  intros H6 Hd. destruct g6 as [e|]; cbn [prom_str opt_ok app] in *.
+  - destruct ue; cbn [app]; split; [apply san_tail_eq; assumption|apply eq_tail_ok|apply san_tail_noeq; assumption|apply prom_tail_ok; exact H6].
+  - split; [apply san_tail_deco; exact Hd|apply deco_tail_ok; exact Hd].
+Qed.
+Lemma san_tail_inv s g6 : san_tail s = Some g6 ->
+  exists ue d, opt_ok c_prom g6 /\ deco_str d = true /\ s = prom_str ue g6 ++ d.
+Proof.
+  unfold san_tail. intros H.
+  destruct (match s with c :: e :: r => if (c =? 61) && is_prom_ch e && deco_end r then Some (Some e) else None | _ => None end)
+    as [g|] eqn:E1; cbn [or_else] in H.
+  { injection H as <-. destruct s as [|c [|e r]]; try discriminate E1.
+    destruct ((c =? 61) && is_prom_ch e && deco_end r) eqn:E; [|discriminate E1]. injection E1 as <-.
+    apply andb_prop in E. destruct E as (E & Ed). apply andb_prop in E. destruct E as (Ec & Ee). apply N.eqb_eq in Ec. subst c.
+    exists true, r. repeat split; assumption. }
+  destruct (match s with e :: r => if is_prom_ch e && deco_end r then Some (Some e) else None | [] => None end)
+    as [g|] eqn:E2; cbn [or_else] in H.
+  { injection H as <-. destruct s as [|e r]; try discriminate E2.
+    destruct (is_prom_ch e && deco_end r) eqn:E; [|discriminate E2]. injection E2 as <-.
+    apply andb_prop in E. destruct E as (Ee & Ed). exists false, r. repeat split; assumption. }
+  destruct (deco_end s) eqn:E3; [|discriminate H]. injection H as <-. exists false, s. repeat split. exact E3.
+Qed.
+
+(** inversion: what a successful match says about the string *)
+Lemma opt_eat_inv {A} cls s (k : option N -> str -> option A) x : opt_eat cls s k = Some x ->
+  (exists c r, s = c :: r /\ cls c = true /\ k (Some c) r = Some x) \/ k None s = Some x.
+Proof.
+  destruct s as [|c r]; [right; assumption|]. unfold opt_eat. destruct (cls c) eqn:Ec; [|right; assumption].
+  destruct (k (Some c) r) as [y|] eqn:Ek; [|right; assumption]. intros H. left. exists c, r. split; [reflexivity|]. split; [exact Ec|]. rewrite Ek. exact H.
+Qed.
+Lemma strip_prefix_inv pat : forall s r, strip_prefix pat s = Some r -> s = pat ++ r.
+Proof.
+  induction pat as [|pc pr IH]; intros s r H; [cbn in H; injection H as ->; reflexivity|].
+  destruct s as [|c t]; [discriminate H|]. cbn [strip_prefix] in H. destruct (N.eqb_spec c pc) as [->|]; [|discriminate H].
+  cbn [app]. f_equal. apply IH. exact H.
+Qed.
+Lemma san_g4_inv {A} s (k : san_target -> str -> option A) x : san_g4 s k = Some x ->
+  exists tg r, s = tstr tg ++ r /\ tg_ok tg /\ k tg r = Some x.
+Proof.
+  unfold san_g4. intros H.
+  destruct (match san_sq_alt s with Some (tg, r) => k tg r | None => None end) as [y|] eqn:E1; cbn [or_else] in H.
+  { injection H as ->. destruct (san_sq_alt s) as [(tg, r)|] eqn:Es; [|discriminate E1].
+    unfold san_sq_alt in Es. destruct s as [|a [|b t]]; try discriminate Es.
+    - destruct (is_file_ch a); discriminate Es.
+    - destruct (is_file_ch a) eqn:Ea; [|discriminate Es]. destruct (is_rank_ch b) eqn:Eb; [|discriminate Es].
+      injection Es as <- <-. exists (TSq a b), t. split; [reflexivity|]. split; [|exact E1].
+      split; [apply file_is_c_file; exact Ea|apply rank_is_c_rank; exact Eb]. }
+  destruct (match strip_prefix [79; 45; 79; 45; 79] s with Some r => k TOOO r | None => None end) as [y|] eqn:E2; cbn [or_else] in H.
+  { injection H as ->. destruct (strip_prefix [79; 45; 79; 45; 79] s) as [r|] eqn:Es; [|discriminate E2].
+    apply strip_prefix_inv in Es. exists TOOO, r. repeat split; assumption. }
+  destruct (strip_prefix [79; 45; 79] s) as [r|] eqn:Es; [|discriminate H].
+  apply strip_prefix_inv in Es. exists TOO, r. repeat split; assumption.
+Qed.
+
+Lemma san_find_inv s f : san_find s = Some f ->
+  exists X ue d,
+    opt_ok c_piece (sf_piece f) /\ opt_ok c_file (sf_file f) /\ opt_ok c_rank (sf_rank f) /\ opt_ok c_x X /\
+    tg_ok (sf_target f) /\ opt_ok c_prom (sf_prom f) /\ deco_str d = true /\
+    s = o2l (sf_piece f) ++ o2l (sf_file f) ++ o2l (sf_rank f) ++ o2l X ++ tstr (sf_target f) ++ prom_str ue (sf_prom f) ++ d.
+Proof.
+  unfold san_find. rewrite san_at_K. intros H.
+  assert (H1 : exists g1 s1, opt_ok c_piece g1 /\ s = o2l g1 ++ s1 /\ K1 g1 s1 = Some f).
+  { apply opt_eat_inv in H. destruct H as [(c & r & -> & Hc & H')|H']; [exists (Some c), r|exists None, s]; repeat split; assumption. }
+  destruct H1 as (g1 & s1 & O1 & -> & H1). unfold K1 in H1.
+  assert (H2 : exists g2 s2, opt_ok c_file g2 /\ s1 = o2l g2 ++ s2 /\ K2 g1 g2 s2 = Some f).
+  { apply opt_eat_inv in H1. destruct H1 as [(c & r & -> & Hc & H')|H']; 
+      [exists (Some c), r; split; [apply file_is_c_file; exact Hc|split; [reflexivity|exact H']]
+      |exists None, s1; split; [exact I|split; [reflexivity|exact H']]]. }
+  destruct H2 as (g2 & s2 & O2 & -> & H2). unfold K2 in H2.
+  assert (H3 : exists g3 s3, opt_ok c_rank g3 /\ s2 = o2l g3 ++ s3 /\ K3 g1 g2 g3 s3 = Some f).
+  { apply opt_eat_inv in H2. destruct H2 as [(c & r & -> & Hc & H')|H']; 
+      [exists (Some c), r; split; [apply rank_is_c_rank; exact Hc|split; [reflexivity|exact H']]
+      |exists None, s2; split; [exact I|split; [reflexivity|exact H']]]. }
+  destruct H3 as (g3 & s3 & O3 & -> & H3). unfold K3 in H3.
+  assert (H4 : exists X s4, opt_ok c_x X /\ s3 = o2l X ++ s4 /\ K4 g1 g2 g3 s4 = Some f).
+  { apply opt_eat_inv in H3. destruct H3 as [(c & r & -> & Hc & H')|H']; 
+      [exists (Some c), r; split; [apply x_is_c_x'; exact Hc|split; [reflexivity|exact H']]
+      |exists None, s3; split; [exact I|split; [reflexivity|exact H']]]. }
+  destruct H4 as (X & s4 & O4 & -> & H4). unfold K4 in H4.
+  apply san_g4_inv in H4. destruct H4 as (tg & s5 & -> & Otg & H5).
+  destruct (san_tail s5) as [g6|] eqn:E6; [|discriminate H5]. injection H5 as <-.
+  apply san_tail_inv in E6. destruct E6 as (ue & d & O6 & Hd & ->).
+  exists X, ue, d. cbn [sf_piece sf_file sf_rank sf_target sf_prom]. repeat split; assumption.
+Qed.
+
+(* and the converse: printing the groups and parsing gives the groups back *)
+Lemma san_find_print g1 g2 g3 X tg ue g6 d :
+  opt_ok c_piece g1 -> opt_ok c_file g2 -> opt_ok c_rank g3 -> opt_ok c_x X -> tg_ok tg -> opt_ok c_prom g6 -> deco_str d = true ->
+  san_find (o2l g1 ++ o2l g2 ++ o2l g3 ++ o2l X ++ tstr tg ++ prom_str ue g6 ++ d) = Some (mk_sf g1 g2 g3 tg g6).
+Proof.
+  intros H1 H2 H3 HX Htg H6 Hd. destruct (san_tail_print ue g6 d H6 Hd) as (Ht & Hok).
+  unfold san_find. apply san_at_shape; assumption.
+Qed.
+
 Lemma san_find_at s f : san_at s = Some f -> san_find s = Some f.
-Proof. intros H. destruct s; cbn [san_find]; rewrite H; reflexivity. Qed.
+Proof. exact (fun H => H). Qed.
+Lemma san_find_castle tg d : tg = TOO \/ tg = TOOO -> deco_str d = true ->
+  san_find (tstr tg ++ d) = Some (mk_sf None None None tg None).
+Proof.
+  intros Htg Hd. apply (san_find_print None None None None tg false None d); try exact I; try exact Hd.
+  destruct Htg as [-> | ->]; exact I.
+Qed.
 
 (** ** F. Which legal moves fit the matched groups *)
-Lemma san_fits_noncastle p f m : mtype m <> 3 -> san_fits p f m = san_normal_fits p f m.
+Lemma san_fits_noncastle p s f m : mtype m <> 3 -> san_fits p s f m = san_normal_fits p f m.
 Proof. intros H. unfold san_fits, CASTLING. destruct (N.eqb_spec (mtype m) 3); [contradiction|reflexivity]. Qed.
-Lemma san_fits_sq p f m a b : sf_target f = TSq a b -> san_fits p f m = true -> san_normal_fits p f m = true.
+Lemma san_fits_sq p s f m a b : sf_target f = TSq a b -> san_fits p s f m = true -> san_normal_fits p f m = true.
 Proof.
   intros Ht. unfold san_fits. destruct (mtype m =? CASTLING); [|auto].
-  destruct ((mto m =? 6) || (mto m =? 62)); [rewrite Ht; cbn [target_eqb]; auto|].
-  destruct ((mto m =? 2) || (mto m =? 58)); [rewrite Ht; cbn [target_eqb]; auto|discriminate].
+  destruct ((mto m =? 6) || (mto m =? 62)); [rewrite Ht; cbn [target_eqb andb]; discriminate|].
+  destruct ((mto m =? 2) || (mto m =? 58)); [rewrite Ht; cbn [target_eqb andb]; discriminate|discriminate].
 Qed.
 
 Definition nf_spec (p : pos) (g1 g2 g3 : option N) (t : N) (g6 : option N) (m' : mv) : Prop :=
@@ -850,7 +1080,7 @@ Definition nf_spec (p : pos) (g1 g2 g3 : option N) (t : N) (g6 : option N) (m' :
               | Some L => pt_char (type_of (piece_at p (mfrom m'))) = L end /\
   match g2 with None => True | Some c => 97 + file_of (mfrom m') = c end /\
   match g3 with None => True | Some c => 49 + rank_of (mfrom m') = c end /\
-  match g6 with None => mtype m' <> 1 | Some c => pt_char (mprom m') = c end.
+  match g6 with None => mtype m' <> 1 | Some c => mtype m' = 1 /\ pt_char (mprom m') = c end.
 
 Lemma nf_iff p g1 g2 g3 t g6 m' : t < 64 -> mto m' < 64 ->
   san_normal_fits p (mk_sf g1 g2 g3 (TSq (file_ch t) (rank_ch t)) g6) m' = true <-> nf_spec p g1 g2 g3 t g6 m'.
@@ -868,11 +1098,12 @@ Proof.
     - rewrite negb_involutive, N.eqb_eq. tauto. }
   assert (E3 : forall g v, is_none g || opt_is g v = true <-> match g with None => True | Some c => v = c end).
   { intros [c|] v; cbn [is_none opt_is orb]; [rewrite N.eqb_eq; split; congruence|tauto]. }
-  assert (E6 : negb ((negb (is_none g6) && negb (opt_is g6 (pt_char (mprom m')))) || (is_none g6 && (mtype m' =? PROMOTION))) = true
-               <-> match g6 with None => mtype m' <> 1 | Some c => pt_char (mprom m') = c end).
-  { destruct g6 as [c|]; cbn [is_none opt_is negb orb andb].
-    - rewrite orb_false_r, negb_involutive, N.eqb_eq. split; congruence.
-    - unfold PROMOTION. rewrite negb_true_iff, N.eqb_neq. tauto. }
+  assert (E6 : negb ((negb (is_none g6) && (negb (mtype m' =? PROMOTION) || negb (opt_is g6 (pt_char (mprom m')))))
+                     || (is_none g6 && (mtype m' =? PROMOTION))) = true
+               <-> match g6 with None => mtype m' <> 1 | Some c => mtype m' = 1 /\ pt_char (mprom m') = c end).
+  { unfold PROMOTION. destruct g6 as [c|]; cbn [is_none opt_is negb orb andb].
+    - rewrite orb_false_r, negb_orb, !negb_involutive, andb_true_iff, !N.eqb_eq. split; intros (A & B); split; congruence.
+    - rewrite negb_true_iff, N.eqb_neq. tauto. }
   rewrite E1, E2, !E3, E6. tauto.
 Qed.
 
@@ -975,7 +1206,7 @@ Proof.
       destruct (N.eqb_spec (stm p) 0); lia. }
   (* (C) the promotion piece agrees *)
   assert (HC : mtype m' = 1 -> mprom m' = mprom m).
-  { intros Hy'. assert (Hy : mtype m = 1) by tauto. rewrite Hy in Hprom. cbn [N.eqb Pos.eqb] in Hprom.
+  { intros Hy'. assert (Hy : mtype m = 1) by tauto. rewrite Hy in Hprom. cbn [N.eqb Pos.eqb] in Hprom. destruct Hprom as (_ & Hprom).
     rewrite pt_letter_char36 in Hprom by auto. apply pt_char_inj36; auto. }
   (* (A) same origin *)
   assert (HA : mfrom m' = mfrom m).
@@ -1099,8 +1330,8 @@ Proof. intros [-> | [-> | [-> | [-> | ->]]]]; reflexivity. Qed.
 (* the heart: the matched groups of the printed move select exactly this move *)
 Lemma san_body_selects p m usex useeq d :
   legal_pos p = true -> In m (legal p) -> deco_str d = true ->
-  exists f, san_find (san_body usex useeq p m ++ d) = Some f /\ san_fits p f m = true /\
-            forall m', In m' (legal p) -> san_fits p f m' = true -> m' = m.
+  exists f, san_find (san_body usex useeq p m ++ d) = Some f /\ san_fits p (san_body usex useeq p m ++ d) f m = true /\
+            forall m', In m' (legal p) -> san_fits p (san_body usex useeq p m ++ d) f m' = true -> m' = m.
 Proof.
   intros Hl Hm Hd. pose proof (legal_in_pseudo p m Hm) as Hps.
   pose proof (pseudo_class p m Hps) as (Hs & Ht & Hown & _).
@@ -1108,8 +1339,8 @@ Proof.
   - (* castling *)
     pose proof (pseudo_castle_class p m Hps Hc) as (_ & Hpr & _ & Hsq).
     assert (Huniq : forall tg, (tg = TOO /\ (mto m = 6 \/ mto m = 62)) \/ (tg = TOOO /\ (mto m = 2 \/ mto m = 58)) ->
-              san_fits p (mk_sf None None None tg None) m = true /\
-              forall m', In m' (legal p) -> san_fits p (mk_sf None None None tg None) m' = true -> m' = m).
+              san_fits p (tstr tg ++ d) (mk_sf None None None tg None) m = true /\
+              forall m', In m' (legal p) -> san_fits p (tstr tg ++ d) (mk_sf None None None tg None) m' = true -> m' = m).
     { intros tg Htg. split.
       - unfold san_fits, CASTLING. rewrite Hc. cbn [N.eqb Pos.eqb].
         destruct Htg as [(-> & [E|E])|(-> & [E|E])]; rewrite E; reflexivity.
@@ -1125,9 +1356,9 @@ Proof.
         + unfold san_normal_fits in Hfit. cbn [sf_target] in Hfit.
           destruct Htg as [(-> & _)|(-> & _)]; discriminate Hfit. }
     destruct (N.eqb_spec (file_of (mto m)) 6) as [E6|E6].
-    + exists (mk_sf None None None TOO None). split; [apply san_find_at; apply san_at_castle_short; exact Hd|].
+    + exists (mk_sf None None None TOO None). split; [apply (san_find_castle TOO); [left; reflexivity|exact Hd]|].
       apply Huniq. left. split; [reflexivity|]. rewrite file_of_mod in E6. lia.
-    + exists (mk_sf None None None TOOO None). split; [apply san_find_at; apply san_at_castle_long; exact Hd|].
+    + exists (mk_sf None None None TOOO None). split; [apply (san_find_castle TOOO); [right; reflexivity|exact Hd]|].
       apply Huniq. right. split; [reflexivity|]. rewrite file_of_mod in E6. lia.
   - cbv zeta. destruct (N.eqb_spec (mover_type p m) PAWN) as [Hp|Hnp].
     + (* pawn *)
@@ -1143,20 +1374,19 @@ Proof.
                   sq_name (mto m) ++ (if mtype m =? PROMOTION then (if useeq then [61] else []) ++ [pt_letter (mprom m)] else [])) ++ d)
           with (o2l None ++ o2l g2 ++ o2l None ++ o2l X ++ [file_ch (mto m); rank_ch (mto m)] ++ T).
         2:{ unfold g2, X, T, sq_name. destruct (is_capture p m), usex; cbn [andb o2l app]; rewrite <- ?app_assoc; reflexivity. }
-        assert (Hg6 : san_g6 T = g6 /\ tail_ok T).
+        assert (Hg6 : san_tail T = Some g6 /\ tail_ok T).
         { unfold T, g6, PROMOTION. destruct (N.eqb_spec (mtype m) 1) as [Hy|Hy].
           - specialize (Hpr Hy). assert (Hpc : is_prom_ch (pt_letter (mprom m)) = true) by (rewrite pt_letter_char36 by exact Hpr; apply pt_char36_prom; exact Hpr).
-            destruct useeq; cbn [app]; [split; [apply san_g6_eq; exact Hpc|apply eq_tail_ok]|split; [apply san_g6_noeq; exact Hpc|apply prom_tail_ok; exact Hpc]].
-          - cbn [app]. split; [apply san_g6_deco; exact Hd|apply deco_tail_ok; exact Hd]. }
-        destruct Hg6 as (<- & HT).
-        apply san_at_shape; try exact I; try exact HT.
+            destruct useeq; cbn [app]; [split; [apply san_tail_eq; assumption|apply eq_tail_ok]|split; [apply san_tail_noeq; assumption|apply prom_tail_ok; exact Hpc]].
+          - cbn [app]. split; [apply san_tail_deco; exact Hd|apply deco_tail_ok; exact Hd]. }
+        destruct Hg6 as (H6 & HT).
+        apply (san_at_shape None g2 None X (TSq (file_ch (mto m)) (rank_ch (mto m))) T g6); try exact I; try exact HT; try exact H6.
         -- unfold g2. destruct (is_capture p m); [apply file_is_c_file, file_ch_class|exact I].
         -- unfold X. destruct (is_capture p m && usex); [exact x_is_c_x|exact I].
-        -- apply file_is_c_file, file_ch_class.
-        -- apply rank_is_c_rank, rank_ch_class; exact Ht.
+        -- split; [apply file_is_c_file, file_ch_class|apply rank_is_c_rank, rank_ch_class; exact Ht].
       * rewrite san_fits_noncastle by exact Hnc. apply nf_iff; [exact Ht|exact Ht|]. unfold nf_spec. split; [reflexivity|].
         split; [exact Hp|]. split; [unfold g2; destruct (is_capture p m); [reflexivity|exact I]|]. split; [exact I|].
-        unfold g6. destruct (N.eqb_spec (mtype m) 1) as [Hy|Hy]; [symmetry; apply pt_letter_char36; auto|exact Hy].
+        unfold g6. destruct (N.eqb_spec (mtype m) 1) as [Hy|Hy]; [split; [exact Hy|symmetry; apply pt_letter_char36; auto]|exact Hy].
       * intros m' Hm' Hfit. pose proof (legal_in_pseudo p m' Hm') as Hps'.
         pose proof (pseudo_class p m' Hps') as (_ & Ht' & _).
         apply san_fits_sq with (a := file_ch (mto m)) (b := rank_ch (mto m)) in Hfit; [|reflexivity].
@@ -1178,13 +1408,13 @@ Proof.
           with (o2l (Some (pt_letter (mover_type p m))) ++ o2l (fst (disamb_fields p m)) ++ o2l (snd (disamb_fields p m)) ++
                 o2l X ++ [file_ch (mto m); rank_ch (mto m)] ++ d).
         2:{ unfold X, sq_name. destruct (is_capture p m && usex); cbn [o2l app]; rewrite <- ?app_assoc; cbn [app]; rewrite <- ?app_assoc; reflexivity. }
-        rewrite <- (san_g6_deco d Hd).
-        apply san_at_shape; try assumption.
+        apply (san_at_shape (Some (pt_letter (mover_type p m))) (fst (disamb_fields p m)) (snd (disamb_fields p m)) X
+                            (TSq (file_ch (mto m)) (rank_ch (mto m))) d None); try assumption.
         -- apply piece_letter_class. exact Hty.
         -- unfold X. destruct (is_capture p m && usex); [exact x_is_c_x|exact I].
-        -- apply file_is_c_file, file_ch_class.
-        -- apply rank_is_c_rank, rank_ch_class; exact Ht.
+        -- split; [apply file_is_c_file, file_ch_class|apply rank_is_c_rank, rank_ch_class; exact Ht].
         -- apply deco_tail_ok; exact Hd.
+        -- apply san_tail_deco; exact Hd.
       * rewrite san_fits_noncastle by exact Hnc. apply nf_iff; [exact Ht|exact Ht|]. unfold nf_spec. split; [reflexivity|].
         split; [fold (mover_type p m); destruct Hty as [E|[E|[E|[E|E]]]]; rewrite E; reflexivity|].
         unfold disamb_fields. cbv zeta. split; [|split; [|congruence]].
@@ -1206,7 +1436,7 @@ Proof.
   intros p m Hl Hm usex useeq d Hd.
   destruct (san_body_selects p m usex useeq d Hl Hm Hd) as (f & Hfind & Hself & Huniq).
   unfold from_san. rewrite Hfind.
-  rewrite (filter_unique (san_fits p f) (legal p) m (legal_NoDup p) Hm Hself Huniq). reflexivity.
+  rewrite (filter_unique (san_fits p (san_body usex useeq p m ++ d) f) (legal p) m (legal_NoDup p) Hm Hself Huniq). reflexivity.
 Qed.
 
 Theorem san_roundtrip : forall p m, legal_pos p = true -> In m (legal p) ->
@@ -1226,39 +1456,231 @@ Qed.
 (** san_ambiguous_none / san_no_match_none *)
 Theorem san_ambiguous_none : forall p s f m1 m2, san_find s = Some f ->
   In m1 (legal p) -> In m2 (legal p) -> m1 <> m2 ->
-  san_fits p f m1 = true -> san_fits p f m2 = true -> from_san p s = None.
+  san_fits p s f m1 = true -> san_fits p s f m2 = true -> from_san p s = None.
 Proof.
   intros p s f m1 m2 Hf H1 H2 Hne F1 F2. unfold from_san. rewrite Hf.
-  destruct (filter (san_fits p f) (legal p)) as [|a [|b r]] eqn:E; try reflexivity. exfalso.
-  assert (I1 : In m1 (filter (san_fits p f) (legal p))) by (apply filter_In; tauto).
-  assert (I2 : In m2 (filter (san_fits p f) (legal p))) by (apply filter_In; tauto).
+  destruct (filter (san_fits p s f) (legal p)) as [|a [|b r]] eqn:E; try reflexivity. exfalso.
+  assert (I1 : In m1 (filter (san_fits p s f) (legal p))) by (apply filter_In; tauto).
+  assert (I2 : In m2 (filter (san_fits p s f) (legal p))) by (apply filter_In; tauto).
   rewrite E in I1, I2. destruct I1 as [<-|[]], I2 as [<-|[]]. apply Hne. reflexivity.
 Qed.
 
 Theorem san_no_match_none : forall p s,
-  (san_find s = None \/ exists f, san_find s = Some f /\ forall m, In m (legal p) -> san_fits p f m = false) ->
+  (san_find s = None \/ exists f, san_find s = Some f /\ forall m, In m (legal p) -> san_fits p s f m = false) ->
   from_san p s = None.
 Proof.
   intros p s [H|(f & Hf & Hno)]; unfold from_san; rewrite ?H; [reflexivity|]. rewrite Hf.
-  destruct (filter (san_fits p f) (legal p)) as [|a r] eqn:E; [reflexivity|]. exfalso.
-  assert (I1 : In a (filter (san_fits p f) (legal p))) by (rewrite E; left; reflexivity).
+  destruct (filter (san_fits p s f) (legal p)) as [|a r] eqn:E; [reflexivity|]. exfalso.
+  assert (I1 : In a (filter (san_fits p s f) (legal p))) by (rewrite E; left; reflexivity).
   apply filter_In in I1. destruct I1 as (I1 & I2). rewrite Hno in I2 by exact I1. discriminate I2.
 Qed.
 
 (* soundness: whatever is returned is a legal move that fits the matched groups, and it is the only one *)
 Theorem from_san_sound : forall p s m, from_san p s = Some m ->
-  In m (legal p) /\ exists f, san_find s = Some f /\ san_fits p f m = true /\
-     forall m', In m' (legal p) -> san_fits p f m' = true -> m' = m.
+  In m (legal p) /\ exists f, san_find s = Some f /\ san_fits p s f m = true /\
+     forall m', In m' (legal p) -> san_fits p s f m' = true -> m' = m.
 Proof.
   intros p s m. unfold from_san. destruct (san_find s) as [f|]; [|discriminate].
-  destruct (filter (san_fits p f) (legal p)) as [|a [|b r]] eqn:E; try discriminate. intros H. injection H as ->.
-  assert (I1 : In m (filter (san_fits p f) (legal p))) by (rewrite E; left; reflexivity).
+  destruct (filter (san_fits p s f) (legal p)) as [|a [|b r]] eqn:E; try discriminate. intros H. injection H as ->.
+  assert (I1 : In m (filter (san_fits p s f) (legal p))) by (rewrite E; left; reflexivity).
   apply filter_In in I1. split; [tauto|]. exists f. split; [reflexivity|]. split; [tauto|].
-  intros m' Hm' Hf'. assert (I2 : In m' (filter (san_fits p f) (legal p))) by (apply filter_In; tauto).
+  intros m' Hm' Hf'. assert (I2 : In m' (filter (san_fits p s f) (legal p))) by (apply filter_In; tauto).
   rewrite E in I2. destruct I2 as [<-|[]]. reflexivity.
 Qed.
 
-(** ** I. Findings: literal readings that are false for the engine (refuted twins) *)
+(** ** K. The language the repaired SAN parser accepts, exactly *)
+(* every spelling of a move that is not castling: piece letter (none for a pawn), optionally
+   the file of origin, optionally the rank of origin (needed or not), optionally "x" (capture
+   or not), the target square, for a promotion the piece with or without "=" *)
+Definition san_spell (fl rk ux ue : bool) (p : pos) (m : mv) : str :=
+  (if mover_type p m =? PAWN then [] else [pt_letter (mover_type p m)]) ++
+  (if fl then [file_ch (mfrom m)] else []) ++ (if rk then [rank_ch (mfrom m)] else []) ++
+  (if ux then [120] else []) ++ sq_name (mto m) ++
+  (if mtype m =? PROMOTION then (if ue then [61] else []) ++ [pt_letter (mprom m)] else []).
+Definition castle_str (m : mv) : str := if file_of (mto m) =? 6 then [79;45;79] else [79;45;79;45;79].
+
+(* [san_accepts p m s]: s is one of the spellings under which the parser considers move m:
+   any [san_spell] variant for an ordinary move, exactly O-O / O-O-O for castling, followed by
+   any decoration over ! ? + #. *)
+Definition san_accepts (p : pos) (m : mv) (s : str) : Prop :=
+  if mtype m =? CASTLING then exists d, deco_str d = true /\ s = castle_str m ++ d
+  else exists fl rk ux ue d, deco_str d = true /\ s = san_spell fl rk ux ue p m ++ d.
+
+(* the specification's SAN (San.san_body: minimal disambiguation, "x" iff capture or left out,
+   "=" or not) is among the accepted spellings *)
+Lemma san_body_accepted p m ux ue d : In m (legal p) -> deco_str d = true ->
+  san_accepts p m (san_body ux ue p m ++ d).
+Proof.
+  intros Hm Hd. pose proof (legal_in_pseudo p m Hm) as Hps. unfold san_accepts, san_body.
+  destruct (mtype m =? CASTLING) eqn:Ec.
+  - exists d. split; [exact Hd|reflexivity].
+  - cbv zeta. destruct (mover_type p m =? PAWN) eqn:Ep.
+    + exists (is_capture p m), false, (is_capture p m && ux), ue, d. split; [exact Hd|].
+      unfold san_spell. rewrite Ep. destruct (is_capture p m), ux; reflexivity.
+    + assert (Hnp : (mtype m =? PROMOTION) = false).
+      { apply N.eqb_neq in Ec, Ep. pose proof (pseudo_simple_class p m Hps Ec Ep) as (H0 & _). rewrite H0. reflexivity. }
+      assert (Hdis : exists fl rk : bool, disamb p m = (if fl then [file_ch (mfrom m)] else []) ++ (if rk then [rank_ch (mfrom m)] else [])).
+      { unfold disamb. cbv zeta. destruct (rivals p m); [exists false, false; reflexivity|].
+        destruct (negb _); [exists true, false; reflexivity|]. destruct (negb _); [exists false, true|exists true, true]; reflexivity. }
+      destruct Hdis as (fl & rk & Hdis). exists fl, rk, (is_capture p m && ux), ue, d. split; [exact Hd|].
+      unfold san_spell. rewrite Ep, Hnp, Hdis. rewrite app_nil_r. repeat rewrite <- app_assoc. reflexivity.
+Qed.
+
+Lemma c_x_120 x : c_x x -> x = 120.
+Proof. intros (_ & _ & _ & H & _). unfold is_x_ch in H. lia. Qed.
+Lemma pt_char_piece ty L : pt_char ty = L -> is_piece_ch L = true ->
+  (ty = 1 \/ ty = 3 \/ ty = 4 \/ ty = 5 \/ ty = 6) /\ pt_letter ty = L.
+Proof.
+  unfold pt_char. intros H HL.
+  destruct (N.eqb_spec ty 1) as [->|]; [subst L; split; [tauto|reflexivity]|].
+  destruct (N.eqb_spec ty 2) as [->|]; [subst L; discriminate HL|].
+  destruct (N.eqb_spec ty 3) as [->|]; [subst L; split; [tauto|reflexivity]|].
+  destruct (N.eqb_spec ty 4) as [->|]; [subst L; split; [tauto|reflexivity]|].
+  destruct (N.eqb_spec ty 5) as [->|]; [subst L; split; [tauto|reflexivity]|].
+  destruct (N.eqb_spec ty 6) as [->|]; [subst L; split; [tauto|reflexivity]|].
+  subst L; discriminate HL.
+Qed.
+Definition is_some (o : option N) : bool := match o with Some _ => true | None => false end.
+
+Lemma is_none_eq o : is_none o = true -> o = None.
+Proof. destruct o; [discriminate|reflexivity]. Qed.
+(* what the castling branch of the loop demands *)
+Lemma castle_fits_inv p s f m : cls_castle p m -> san_fits p s f m = true ->
+  exists cs, (cs = TOO \/ cs = TOOO) /\ tstr cs = castle_str m /\ sf_target f = cs /\ has_prefix (tstr cs) s = true /\
+             sf_piece f = None /\ sf_file f = None /\ sf_rank f = None /\ sf_prom f = None.
+Proof.
+  intros (Hty & _ & _ & Hsq). unfold san_fits, CASTLING. rewrite Hty. cbn [N.eqb Pos.eqb].
+  assert (Hgen : forall cs, (cs = TOO \/ cs = TOOO) -> tstr cs = castle_str m ->
+            target_eqb cs (sf_target f) && has_prefix (tstr cs) s && is_none (sf_piece f) && is_none (sf_file f)
+            && is_none (sf_rank f) && is_none (sf_prom f) = true ->
+            exists cs, (cs = TOO \/ cs = TOOO) /\ tstr cs = castle_str m /\ sf_target f = cs /\ has_prefix (tstr cs) s = true /\
+             sf_piece f = None /\ sf_file f = None /\ sf_rank f = None /\ sf_prom f = None).
+  { intros cs Hcs Hstr H. repeat rewrite andb_true_iff in H. destruct H as (((((A & B) & C) & D) & E') & F).
+    exists cs. split; [exact Hcs|]. split; [exact Hstr|].
+    split; [destruct Hcs as [-> | ->]; destruct (sf_target f); try discriminate A; reflexivity|].
+    split; [exact B|]. repeat split; apply is_none_eq; assumption. }
+  destruct Hsq as [(_ & _ & [E|E])|(_ & _ & [E|E])]; rewrite E; cbn [N.eqb Pos.eqb orb];
+    [apply (Hgen TOO)|apply (Hgen TOOO)|apply (Hgen TOO)|apply (Hgen TOOO)]; try tauto;
+    unfold castle_str; rewrite E; reflexivity.
+Qed.
+
+(** (A) a legal move that fits the matched groups is spelled by the string *)
+Lemma fits_accepts p s f m : san_find s = Some f -> In m (pseudo p) -> san_fits p s f m = true -> san_accepts p m s.
+Proof.
+  intros Hf Hm Hfit. destruct (san_find_inv s f Hf) as (X & ue & d & O1 & O2 & O3 & OX & Otg & O6 & Hd & Hs').
+  pose proof (pseudo_class p m Hm) as (Hs & Ht & Hown & _).
+  unfold san_accepts. unfold CASTLING in *. destruct (N.eqb_spec (mtype m) 3) as [Hc|Hnc].
+  - (* castling: nothing but decorations may accompany the castling string *)
+    pose proof (pseudo_castle_class p m Hm Hc) as Hcls.
+    destruct (castle_fits_inv p s f m Hcls Hfit) as (cs & Hcs & Hstr & Etg & Hpre & E1 & E2 & E3 & E6).
+    rewrite E1, E2, E3, E6, Etg in Hs'. cbn [o2l prom_str app] in Hs'.
+    destruct X as [x|]; cbn [o2l app opt_ok] in *.
+    + exfalso. rewrite (c_x_120 x OX) in Hs'. subst s. destruct Hcs as [-> | ->]; vm_compute in Hpre; discriminate Hpre.
+    + exists d. split; [exact Hd|]. rewrite <- Hstr. exact Hs'.
+  - (* other moves *)
+    subst s. unfold san_fits in Hfit. unfold CASTLING in Hfit. destruct (N.eqb_spec (mtype m) 3) as [Hc'|_]; [contradiction|].
+    destruct f as [g1 g2 g3 tg g6]. cbn [sf_piece sf_file sf_rank sf_target sf_prom] in *.
+    assert (Htg : tg = TSq (file_ch (mto m)) (rank_ch (mto m))).
+    { unfold san_normal_fits in Hfit. cbn [sf_target] in Hfit. repeat rewrite andb_true_iff in Hfit.
+      destruct Hfit as ((((HA & _) & _) & _) & _). destruct tg as [a b| |]; try discriminate HA.
+      apply str_eqb_eq in HA. rewrite square_string_valid in HA by exact Ht. unfold sq_name in HA. injection HA as <- <-. reflexivity. }
+    subst tg. apply nf_iff in Hfit; [|exact Ht|exact Ht]. destruct Hfit as (_ & N1 & N2 & N3 & N6).
+    exists (is_some g2), (is_some g3), (is_some X), ue, d. split; [exact Hd|].
+    unfold san_spell.
+    assert (E1 : o2l g1 = if mover_type p m =? PAWN then [] else [pt_letter (mover_type p m)]).
+    { unfold mover_type. destruct g1 as [L|]; cbn [o2l opt_ok] in *.
+      - destruct (pt_char_piece _ _ N1 O1) as (Hty & HL). rewrite HL.
+        destruct (N.eqb_spec (type_of (piece_at p (mfrom m))) PAWN) as [E|E]; [unfold PAWN in E; lia|reflexivity].
+      - rewrite N1. reflexivity. }
+    assert (E2 : o2l g2 = if is_some g2 then [file_ch (mfrom m)] else []).
+    { destruct g2 as [c|]; cbn [o2l is_some]; [subst c|]; reflexivity. }
+    assert (E3 : o2l g3 = if is_some g3 then [rank_ch (mfrom m)] else []).
+    { destruct g3 as [c|]; cbn [o2l is_some]; [subst c|]; reflexivity. }
+    assert (EX : o2l X = if is_some X then [120] else []).
+    { destruct X as [x|]; cbn [o2l is_some opt_ok] in *; [rewrite (c_x_120 x OX)|]; reflexivity. }
+    assert (E6 : prom_str ue g6 = if mtype m =? PROMOTION then (if ue then [61] else []) ++ [pt_letter (mprom m)] else []).
+    { unfold PROMOTION. destruct g6 as [c|]; cbn [prom_str].
+      - destruct N6 as (Hy & Hc). pose proof (pseudo_prom_range p m Hm Hy) as Hr. rewrite Hy. cbn [N.eqb Pos.eqb].
+        rewrite pt_letter_char36 by exact Hr. rewrite Hc. reflexivity.
+      - destruct (N.eqb_spec (mtype m) 1); [contradiction|reflexivity]. }
+    rewrite E1, E2, E3, EX, E6. cbn [target_str]. unfold sq_name. repeat rewrite <- app_assoc. reflexivity.
+Qed.
+
+(** (B) a spelling of a legal move is matched, and the move fits the matched groups *)
+Lemma accepts_fits p s m : legal_pos p = true -> In m (legal p) -> san_accepts p m s ->
+  exists f, san_find s = Some f /\ san_fits p s f m = true.
+Proof.
+  intros Hl Hm Hacc. pose proof (legal_in_pseudo p m Hm) as Hps.
+  pose proof (pseudo_class p m Hps) as (Hs & Ht & Hown & _).
+  unfold san_accepts, CASTLING in Hacc. destruct (N.eqb_spec (mtype m) 3) as [Hc|Hnc].
+  - destruct Hacc as (d & Hd & ->).
+    pose proof (pseudo_castle_class p m Hps Hc) as (_ & _ & _ & Hsq).
+    set (tg := if file_of (mto m) =? 6 then TOO else TOOO).
+    exists (mk_sf None None None tg None). split.
+    + replace (castle_str m) with (tstr tg) by (unfold tg, castle_str; destruct (file_of (mto m) =? 6); reflexivity).
+      apply san_find_castle; [unfold tg; destruct (file_of (mto m) =? 6); tauto|exact Hd].
+    + unfold san_fits, CASTLING, tg, castle_str. rewrite Hc. cbn [N.eqb Pos.eqb sf_target sf_piece sf_file sf_rank sf_prom].
+      destruct Hsq as [(_ & _ & [E|E])|(_ & _ & [E|E])]; rewrite E; reflexivity.
+  - destruct Hacc as (fl & rk & ux & ue & d & Hd & ->).
+    pose proof (pseudo_prom_range p m Hps) as Hpr.
+    set (g1 := if mover_type p m =? PAWN then None else Some (pt_letter (mover_type p m))).
+    set (g2 := if fl then Some (file_ch (mfrom m)) else None).
+    set (g3 := if rk then Some (rank_ch (mfrom m)) else None).
+    set (X := if ux then Some 120 else None).
+    set (g6 := if mtype m =? PROMOTION then Some (pt_letter (mprom m)) else None).
+    exists (mk_sf g1 g2 g3 (TSq (file_ch (mto m)) (rank_ch (mto m))) g6).
+    pose proof (own_type_valid p (mfrom m) Hl Hs Hown) as Hrange. fold (mover_type p m) in Hrange.
+    split.
+    + replace (san_spell fl rk ux ue p m ++ d)
+        with (o2l g1 ++ o2l g2 ++ o2l g3 ++ o2l X ++ tstr (TSq (file_ch (mto m)) (rank_ch (mto m))) ++ prom_str ue g6 ++ d).
+      2:{ unfold san_spell, g1, g2, g3, X, g6, sq_name. destruct (mover_type p m =? PAWN), fl, rk, ux, (mtype m =? PROMOTION);
+            cbn [o2l target_str prom_str app]; repeat rewrite <- app_assoc; reflexivity. }
+      apply san_find_print; try exact Hd.
+      * unfold g1. destruct (N.eqb_spec (mover_type p m) PAWN) as [E|E]; [exact I|]. apply piece_letter_class. unfold PAWN in E. lia.
+      * unfold g2. destruct fl; [apply file_is_c_file, file_ch_class|exact I].
+      * unfold g3. destruct rk; [apply rank_is_c_rank, rank_ch_class; exact Hs|exact I].
+      * unfold X. destruct ux; [exact x_is_c_x|exact I].
+      * split; [apply file_is_c_file, file_ch_class|apply rank_is_c_rank, rank_ch_class; exact Ht].
+      * unfold g6, PROMOTION. destruct (N.eqb_spec (mtype m) 1) as [Hy|Hy]; [|exact I].
+        cbn [opt_ok]. unfold c_prom. rewrite pt_letter_char36 by auto. apply pt_char36_prom. auto.
+    + rewrite san_fits_noncastle by exact Hnc. apply nf_iff; [exact Ht|exact Ht|]. unfold nf_spec. split; [reflexivity|].
+      split; [|split; [|split]].
+      * unfold g1. fold (mover_type p m). destruct (N.eqb_spec (mover_type p m) PAWN) as [E|E]; [exact E|].
+        assert (Hty : mover_type p m = 1 \/ mover_type p m = 3 \/ mover_type p m = 4 \/ mover_type p m = 5 \/ mover_type p m = 6)
+          by (unfold PAWN in E; lia).
+        destruct Hty as [E'|[E'|[E'|[E'|E']]]]; rewrite E'; reflexivity.
+      * unfold g2. destruct fl; [reflexivity|exact I].
+      * unfold g3. destruct rk; [reflexivity|exact I].
+      * unfold g6, PROMOTION. destruct (N.eqb_spec (mtype m) 1) as [Hy|Hy]; [split; [exact Hy|symmetry; apply pt_letter_char36; auto]|exact Hy].
+Qed.
+
+(** san_strict_none: EVERY string that is not an accepted spelling of a legal move yields no move. *)
+Theorem san_strict_none : forall p s,
+  (forall m, In m (legal p) -> ~ san_accepts p m s) -> from_san p s = None.
+Proof.
+  intros p s Hno. destruct (from_san p s) as [m|] eqn:E; [exfalso|reflexivity].
+  apply from_san_sound in E. destruct E as (Hm & f & Hf & Hfit & _).
+  apply (Hno m Hm). apply (fits_accepts p s f m Hf); [apply legal_in_pseudo; exact Hm|exact Hfit].
+Qed.
+
+(** from_san_exact: the parser returns m iff s is an accepted spelling of the legal move m and of
+    no other legal move. *)
+Theorem from_san_exact : forall p s m, legal_pos p = true ->
+  (from_san p s = Some m <->
+   In m (legal p) /\ san_accepts p m s /\ forall m', In m' (legal p) -> san_accepts p m' s -> m' = m).
+Proof.
+  intros p s m Hl. split.
+  - intros E. apply from_san_sound in E. destruct E as (Hm & f & Hf & Hfit & Huniq).
+    split; [exact Hm|]. split; [apply (fits_accepts p s f m Hf); [apply legal_in_pseudo; exact Hm|exact Hfit]|].
+    intros m' Hm' Hacc'. destruct (accepts_fits p s m' Hl Hm' Hacc') as (f' & Hf' & Hfit').
+    apply Huniq; [exact Hm'|]. congruence.
+  - intros (Hm & Hacc & Huniq). destruct (accepts_fits p s m Hl Hm Hacc) as (f & Hf & Hfit).
+    unfold from_san. rewrite Hf.
+    rewrite (filter_unique (san_fits p s f) (legal p) m (legal_NoDup p) Hm Hfit); [reflexivity|].
+    intros m' Hm' Hfit'. apply Huniq; [exact Hm'|]. apply (fits_accepts p s f m' Hf); [apply legal_in_pseudo; exact Hm'|exact Hfit'].
+Qed.
+
+(** ** I. Examples *)
 From Coq Require Import String Ascii.
 Open Scope list_scope. Open Scope N_scope.
 Definition s2l (s : string) : str := map N_of_ascii (list_ascii_of_string s).
@@ -1275,20 +1697,32 @@ Proof.
 Qed.
 Definition pos_of (fen : string) : pos := match parse (s2l fen) with Some p => p | None => start_pos end.
 
-(* is [s] one of the accepted spellings (any "x"/"=" variant, any decoration) of a legal move? *)
-Definition is_san_of_legal (p : pos) (s : str) : bool :=
-  existsb (fun m => existsb (fun ux => existsb (fun ue =>
-     let b := san_body ux ue p m in
-     str_eqb (firstn (List.length b) s) b && deco_str (skipn (List.length b) s)) [true; false]) [true; false]) (legal p).
-Lemma is_san_of_legal_complete p s m ux ue d :
-  In m (legal p) -> deco_str d = true -> s = san_body ux ue p m ++ d -> is_san_of_legal p s = true.
+(* decision procedures for "s is a spelling of some legal move" *)
+Definition bools := [true; false].
+Lemma in_bools b : In b bools.
+Proof. destruct b; cbn; tauto. Qed.
+Definition is_accepted_of_legal (p : pos) (s : str) : bool :=
+  existsb (fun m => existsb (fun fl => existsb (fun rk => existsb (fun ux => existsb (fun ue =>
+     let b := if mtype m =? CASTLING then castle_str m else san_spell fl rk ux ue p m in
+     str_eqb (firstn (List.length b) s) b && deco_str (skipn (List.length b) s)) bools) bools) bools) bools) (legal p).
+Lemma is_accepted_of_legal_complete p s m : In m (legal p) -> san_accepts p m s -> is_accepted_of_legal p s = true.
 Proof.
-  intros Hm Hd ->. unfold is_san_of_legal. apply existsb_exists. exists m. split; [exact Hm|].
-  apply existsb_exists. exists ux. split; [destruct ux; cbn; tauto|].
-  apply existsb_exists. exists ue. split; [destruct ue; cbn; tauto|].
+  intros Hm Hacc.
+  assert (H : exists fl rk ux ue d, deco_str d = true /\
+            s = (if mtype m =? CASTLING then castle_str m else san_spell fl rk ux ue p m) ++ d).
+  { unfold san_accepts in Hacc. destruct (mtype m =? CASTLING); [|exact Hacc].
+    destruct Hacc as (d & Hd & Hs). exists false, false, false, false, d. split; assumption. }
+  destruct H as (fl & rk & ux & ue & d & Hd & ->).
+  unfold is_accepted_of_legal. apply existsb_exists. exists m. split; [exact Hm|].
+  apply existsb_exists. exists fl. split; [apply in_bools|].
+  apply existsb_exists. exists rk. split; [apply in_bools|].
+  apply existsb_exists. exists ux. split; [apply in_bools|].
+  apply existsb_exists. exists ue. split; [apply in_bools|].
   cbv zeta. rewrite firstn_app, Nat.sub_diag, firstn_all, firstn_O, app_nil_r, str_eqb_refl.
   rewrite skipn_app, Nat.sub_diag, skipn_all. cbn [skipn app andb]. exact Hd.
 Qed.
+Lemma is_accepted_of_legal_false p s : is_accepted_of_legal p s = false -> forall m, In m (legal p) -> ~ san_accepts p m s.
+Proof. intros E m Hm Hacc. pose proof (is_accepted_of_legal_complete p s m Hm Hacc) as E'. congruence. Qed.
 Definition is_uci_of_legal (p : pos) (s : str) : bool :=
   existsb (fun m => str_eqb s (uci_str m) || str_eqb s (string_uci m)) (legal p).
 Lemma is_uci_of_legal_complete p s m : In m (legal p) -> s = uci_str m \/ s = string_uci m -> is_uci_of_legal p s = true.
@@ -1296,65 +1730,114 @@ Proof.
   intros Hm Hs. unfold is_uci_of_legal. apply existsb_exists. exists m. split; [exact Hm|].
   destruct Hs as [-> | ->]; rewrite str_eqb_refl; [reflexivity|apply orb_true_r].
 Qed.
-
-(** FINDING (unanchored regexUciMove): a string that is the UCI string of no legal move is
-    parsed to a move when it merely CONTAINS one: "xe2e4y" -> e2e4 in the start position. *)
-Theorem uci_strict_none_refuted :
-  ~ (forall p s, legal_pos p = true ->
-       (forall m, In m (legal p) -> s <> uci_str m /\ s <> string_uci m) -> from_uci p s = None).
+Lemma is_uci_of_legal_false p s : is_uci_of_legal p s = false ->
+  forall m, In m (legal p) -> s <> uci_str m /\ s <> string_uci m.
 Proof.
-  intros H. specialize (H start_pos (s2l "xe2e4y") eq_refl).
-  assert (Hno : forall m, In m (legal start_pos) -> s2l "xe2e4y" <> uci_str m /\ s2l "xe2e4y" <> string_uci m).
-  { intros m Hm. assert (E : is_uci_of_legal start_pos (s2l "xe2e4y") = false) by (vm_compute; reflexivity).
-    split; intros Hs.
-    - pose proof (is_uci_of_legal_complete start_pos (s2l "xe2e4y") m Hm (or_introl Hs)) as E'. congruence.
-    - pose proof (is_uci_of_legal_complete start_pos (s2l "xe2e4y") m Hm (or_intror Hs)) as E'. congruence. }
-  specialize (H Hno). vm_compute in H. discriminate H.
+  intros E m Hm. split; intros Hs.
+  - pose proof (is_uci_of_legal_complete p s m Hm (or_introl Hs)) as E'. congruence.
+  - pose proof (is_uci_of_legal_complete p s m Hm (or_intror Hs)) as E'. congruence.
 Qed.
-(* junk before / after is ignored; a wrong fifth letter is NOT ignored when it is a promotion letter *)
-Example uci_junk_examples :
-  from_uci start_pos (s2l "xe2e4y") = Some (mkmv 12 28 0 3) /\
-  from_uci start_pos (s2l "e2e4 e7e5") = Some (mkmv 12 28 0 3) /\
-  from_uci start_pos (s2l "position startpos moves g1f3") = Some (mkmv 6 21 0 3) /\
+
+(** GetMoveFromUci after the repair: junk before / after a move, a wrong fifth letter, a trailing
+    newline, upper-case squares ... all give no move (every line confirmed on the real engine) *)
+Example uci_repaired_examples :
+  from_uci start_pos (s2l "e2e4") = Some (mkmv 12 28 0 3) /\
+  from_uci start_pos (s2l "xe2e4y") = None /\
+  from_uci start_pos (s2l "e2e4 e7e5") = None /\
+  from_uci start_pos (s2l " e2e4") = None /\
+  from_uci start_pos (s2l "e2e4 ") = None /\
+  from_uci start_pos (10 :: s2l "e2e4") = None /\
+  from_uci start_pos (s2l "e2e4" ++ [10]) = None /\
+  from_uci start_pos (s2l "position startpos moves g1f3") = None /\
   from_uci start_pos (s2l "e2e4q") = None /\
-  from_uci start_pos (s2l "e2e4k") = Some (mkmv 12 28 0 3) /\
+  from_uci start_pos (s2l "e2e4k") = None /\
+  from_uci start_pos (s2l "E2E4") = None /\
   from_uci start_pos (s2l "e2e5") = None /\
-  from_uci start_pos (s2l "e2") = None.
+  from_uci start_pos (s2l "e2") = None /\
+  from_uci start_pos [] = None.
 Proof. vm_compute. repeat split. Qed.
+(* non-vacuity of [uci_strict_none]: the hypothesis holds for a string that used to be accepted *)
+Example uci_strict_none_ex :
+  (forall m, In m (legal start_pos) -> s2l "xe2e4y" <> uci_str m /\ s2l "xe2e4y" <> string_uci m)
+  /\ from_uci start_pos (s2l "xe2e4y") = None.
+Proof. split; [apply is_uci_of_legal_false; vm_compute; reflexivity|vm_compute; reflexivity]. Qed.
 
-(** FINDING (unanchored regexSanMove, promotion test, castling fall-through): strings that are
-    the SAN of no legal move are parsed to a move. *)
-Theorem san_strict_none_refuted :
-  ~ (forall p s, legal_pos p = true ->
-       (forall m ux ue d, In m (legal p) -> deco_str d = true -> s <> san_body ux ue p m ++ d) ->
-       from_san p s = None).
-Proof.
-  intros H. specialize (H start_pos (s2l "e4=N") eq_refl).
-  assert (Hno : forall m ux ue d, In m (legal start_pos) -> deco_str d = true -> s2l "e4=N" <> san_body ux ue start_pos m ++ d).
-  { intros m ux ue d Hm Hd Hs.
-    assert (E : is_san_of_legal start_pos (s2l "e4=N") = false) by (vm_compute; reflexivity).
-    pose proof (is_san_of_legal_complete start_pos (s2l "e4=N") m ux ue d Hm Hd Hs) as E'. congruence. }
-  specialize (H Hno). vm_compute in H. discriminate H.
-Qed.
 Definition castle_pos := pos_of "r3k2r/8/8/8/8/8/8/R3K2R w KQkq - 0 1".
-Example san_junk_examples :
-  (* a promotion suffix "=N"/"N" on a move that is not a promotion is accepted (PromotionType() of a
-     non-promotion move is Knight) *)
-  from_san start_pos (s2l "e4=N") = Some (mkmv 12 28 0 3) /\
-  from_san start_pos (s2l "Nf3N") = Some (mkmv 6 21 0 3) /\
+(** GetMoveFromSan after the repair (every line confirmed on the real engine) *)
+Example san_repaired_examples :
+  (* a promotion suffix on a move that is not a promotion is no longer accepted *)
+  from_san start_pos (s2l "e4=N") = None /\
+  from_san start_pos (s2l "Nf3N") = None /\
   from_san start_pos (s2l "e4=Q") = None /\
-  (* junk around the move is ignored *)
-  from_san start_pos (s2l "1. e4 e5") = Some (mkmv 12 28 0 3) /\
-  from_san start_pos (s2l "xxNf3yy") = Some (mkmv 6 21 0 3) /\
-  (* "Kg1"/"Kc1" select the CASTLING move (the loop falls through to the normal-move test) *)
+  (* junk around the move is no longer ignored; no trailing newline *)
+  from_san start_pos (s2l "1. e4 e5") = None /\
+  from_san start_pos (s2l "xxNf3yy") = None /\
+  from_san start_pos (s2l " Nf3") = None /\
+  from_san start_pos (s2l "Nf3" ++ [10]) = None /\
+  from_san start_pos [] = None /\
+  (* "Kg1"/"Kc1" no longer select the castling move *)
   legal_pos castle_pos = true /\
-  from_san castle_pos (s2l "Kg1") = Some (mkmv 4 6 3 3) /\
-  from_san castle_pos (s2l "Kc1") = Some (mkmv 4 2 3 3) /\
-  is_san_of_legal castle_pos (s2l "Kg1") = false /\
+  from_san castle_pos (s2l "Kg1") = None /\
+  from_san castle_pos (s2l "Kc1") = None /\
   from_san castle_pos (s2l "O-O") = Some (mkmv 4 6 3 3) /\
   from_san castle_pos (s2l "O-O-O+!") = Some (mkmv 4 2 3 3) /\
-  from_san castle_pos (s2l "0-0") = None.
+  from_san castle_pos (s2l "0-0") = None /\
+  (* accepted loose spellings: over-disambiguation, "x" without capture, long-algebraic pawn move *)
+  from_san start_pos (s2l "Nf3") = Some (mkmv 6 21 0 3) /\
+  from_san start_pos (s2l "Ngf3") = Some (mkmv 6 21 0 3) /\
+  from_san start_pos (s2l "N1f3") = Some (mkmv 6 21 0 3) /\
+  from_san start_pos (s2l "Ng1f3") = Some (mkmv 6 21 0 3) /\
+  from_san start_pos (s2l "Nxf3") = Some (mkmv 6 21 0 3) /\
+  from_san start_pos (s2l "Ng1xf3#?!") = Some (mkmv 6 21 0 3) /\
+  from_san start_pos (s2l "e2e4") = Some (mkmv 12 28 0 3) /\
+  from_san start_pos (s2l "xe4") = Some (mkmv 12 28 0 3).
 Proof. vm_compute. repeat split. Qed.
+
+(** Castling is accepted as O-O / O-O-O plus decorations only (every line confirmed on the real
+    engine).
+    HISTORY: before the commit "castling in SAN is only accepted as O-O / O-O-O with decorations"
+    only group 4 of the match was compared for castling moves, so all of
+       KO-O  NO-O  aO-O  1O-O  xO-O  Ka1xO-O  O-O=Q  Qh8xO-O-O=N#!
+    returned the castling move (then proved as san_castle_junk_examples / san_plain_none_refuted,
+    confirmed on the engine); the castling test now also demands HasPrefix(sanMove, castlingString)
+    and empty groups 1, 2, 3 and 5. *)
+Example san_castle_examples :
+  from_san castle_pos (s2l "O-O") = Some (mkmv 4 6 3 3) /\
+  from_san castle_pos (s2l "O-O+") = Some (mkmv 4 6 3 3) /\
+  from_san castle_pos (s2l "O-O-O") = Some (mkmv 4 2 3 3) /\
+  from_san castle_pos (s2l "O-O-O#!") = Some (mkmv 4 2 3 3) /\
+  from_san castle_pos (s2l "KO-O") = None /\
+  from_san castle_pos (s2l "NO-O") = None /\
+  from_san castle_pos (s2l "aO-O") = None /\
+  from_san castle_pos (s2l "1O-O") = None /\
+  from_san castle_pos (s2l "xO-O") = None /\
+  from_san castle_pos (s2l "Ka1xO-O") = None /\
+  from_san castle_pos (s2l "O-O=Q") = None /\
+  from_san castle_pos (s2l "O-OQ") = None /\
+  from_san castle_pos (s2l "O-O-Ox?") = None /\
+  from_san castle_pos (s2l "Qh8xO-O-O=N#!") = None /\
+  is_accepted_of_legal castle_pos (s2l "Qh8xO-O-O=N#!") = false /\
+  is_accepted_of_legal castle_pos (s2l "O-O-O#!") = true.
+Proof. vm_compute. repeat split. Qed.
+(* non-vacuity of [san_strict_none]: the hypothesis holds for strings that used to be accepted *)
+Example san_strict_none_ex :
+  (forall m, In m (legal start_pos) -> ~ san_accepts start_pos m (s2l "e4=N")) /\
+  from_san start_pos (s2l "e4=N") = None /\
+  (forall m, In m (legal castle_pos) -> ~ san_accepts castle_pos m (s2l "Kg1")) /\
+  from_san castle_pos (s2l "Kg1") = None /\
+  (forall m, In m (legal castle_pos) -> ~ san_accepts castle_pos m (s2l "Qh8xO-O-O=N#!")) /\
+  from_san castle_pos (s2l "Qh8xO-O-O=N#!") = None.
+Proof.
+  repeat split; try (vm_compute; reflexivity); apply is_accepted_of_legal_false; vm_compute; reflexivity.
+Qed.
+(* non-vacuity of [from_san_exact], right to left: a loose spelling of exactly one legal move *)
+Example from_san_exact_ex :
+  In (mkmv 6 21 0 3) (legal start_pos) /\ san_accepts start_pos (mkmv 6 21 0 3) (s2l "Ng1xf3#?!") /\
+  from_san start_pos (s2l "Ng1xf3#?!") = Some (mkmv 6 21 0 3).
+Proof.
+  split; [vm_compute; tauto|]. split; [|vm_compute; reflexivity].
+  unfold san_accepts. cbn [mtype N.eqb]. exists true, true, true, false, (s2l "#?!"). split; vm_compute; reflexivity.
+Qed.
 
 (** ** J. Non-vacuity: concrete positions, every legal move, printed and parsed back *)
 Definition roundtrip_all (p : pos) : bool :=
@@ -1379,6 +1862,7 @@ Example ex_knights : roundtrip_all knights_pos = true
   /\ san_str knights_pos (mkmv 1 11 0 3) = s2l "Nbd2"
   /\ san_str knights_pos (mkmv 5 11 0 3) = s2l "Nfd2"
   /\ from_san knights_pos (s2l "Nbd2") = Some (mkmv 1 11 0 3)
+  /\ from_san knights_pos (s2l "Nb1d2") = Some (mkmv 1 11 0 3)
   /\ from_san knights_pos (s2l "Nd2") = None
   /\ from_san knights_pos (s2l "N1d2") = None.
 Proof. vm_compute. repeat split. Qed.
@@ -1448,5 +1932,8 @@ Print Assumptions san_roundtrip_std.
 Print Assumptions san_ambiguous_none.
 Print Assumptions san_no_match_none.
 Print Assumptions from_san_sound.
-Print Assumptions uci_strict_none_refuted.
-Print Assumptions san_strict_none_refuted.
+Print Assumptions uci_strict_none.
+Print Assumptions from_uci_exact.
+Print Assumptions san_strict_none.
+Print Assumptions from_san_exact.
+Print Assumptions san_body_accepted.
